@@ -193,3 +193,51 @@ func HarnessC16Include() {
 		}
 	}
 }
+
+// (e) execution errors in templates made of several files: the error names the file whose source
+// holds the failing construct and points at its token there (a block of a child under extends, an
+// included file, the body of an imported macro), whatever layout precedes the construct.
+func HarnessC16Exec() {
+	pad := []string{"", "\n", "  \n\t", "\r\n  x ", "é\n"}[verifChoice(5)] + symStringLen(0, 1)
+	verifAssume(noDelims(pad + "{"))
+	bad := []string{"{{ 10 / zero }}", "{{ nofunc(1) }}", "{% lorem 100001 %}", "{{ \"x\"|date:\"x\" }}", "{% widthratio 1 zero 1 %}{{ fail() }}"}[verifChoice(5)]
+	place := verifChoice(4)
+	verifObserve("pad", pad)
+	verifObserve("bad", bad)
+	verifObserve("place", place)
+	files := map[string]string{
+		"base": "B1\n{% block k %}b{% endblock %}\nB3 {{ late }}",
+		"lib":  pad + "{% macro m() export %}" + pad + bad + "{% endmacro %}",
+		"inc":  "i1\n" + pad + bad,
+	}
+	switch place {
+	case 0:
+		files["main"] = "m1\n" + pad + bad + "\n"
+	case 1:
+		files["main"] = "{% extends \"base\" %}\n" + pad + "{% block k %}" + pad + bad + "{% endblock %}"
+	case 2:
+		files["main"] = "m1\n\n   {% include \"inc\" %}"
+	default:
+		files["main"] = "m1\n{% import \"lib\" m %}\n\n  {{ m() }}"
+	}
+	set := NewSet("verif", &memLoader{files: files})
+	tpl, err := set.FromFile("main")
+	verifAssert(err == nil, "the construct fails at execution only")
+	_, err2 := tpl.Execute(Context{"zero": 0, "nofunc": 5, "fail": func() (string, error) { return "", errHarness }})
+	verifAssert(err2 != nil, "the construct must fail")
+	e, ok := err2.(*Error)
+	verifAssert(ok, "execution error must be a *pongo2.Error")
+	verifObserve("file", e.Filename)
+	verifObserve("line", e.Line)
+	verifObserve("col", e.Column)
+	if e.Line > 0 {
+		src, named := files[e.Filename]
+		verifAssert(named, "an error that carries a position must name the source the position lies in")
+		off := c16Offset(src, e.Line, e.Column)
+		verifAssert(off >= 0 && off <= len(src), "error position lies outside the source of the template it names")
+		if e.Token != nil && e.Token.Typ != TokenError {
+			verifAssert(e.Token.Filename == e.Filename, "the error names another source than its token")
+			c16CheckToken(src, e.Token)
+		}
+	}
+}
